@@ -1,5 +1,6 @@
 import HH.Sse
 import HH.Proofs.X86Lemmas
+import Std.Tactic.BVDecide
 import HH.Proofs.PortableSpec
 import Mathlib.Tactic.IntervalCases
 /-!
